@@ -372,6 +372,70 @@ func C18(ctx *core.Ctx) {
 		})
 	}
 
+	// ---- R1 (e) symmetric guards of paired checks ---------------------------------------------------
+	// A call that compares an OLD with a NEW value may be skipped because one of
+	// them is absent only if the other one's absence is tested too: a guard on
+	// one side alone hides every change in which that side is absent.
+	for _, f := range fns {
+		nc := 0
+		for _, c := range ssax.Calls(f) {
+			paired := false
+			var hasOld, hasNew bool
+			for _, t := range res(c) {
+				if k.cone[t] {
+					paired = true
+				}
+			}
+			for _, a := range c.Args() {
+				switch k.of(a) {
+				case cOld:
+					hasOld = true
+				case cNew:
+					hasNew = true
+				}
+			}
+			if !paired || !hasOld || !hasNew {
+				continue
+			}
+			nc++
+			nilGuard := map[colour]string{}
+			in := c.Instr.(ssa.Instruction)
+			for cur := in.Block(); cur != nil; cur = cur.Idom() {
+				if len(cur.Preds) != 1 {
+					continue
+				}
+				p := cur.Preds[0]
+				iff, ok := p.Instrs[len(p.Instrs)-1].(*ssa.If)
+				if !ok || p.Succs[0] == p.Succs[1] {
+					continue
+				}
+				bo, ok := iff.Cond.(*ssa.BinOp)
+				if !ok || (bo.Op != token.EQL && bo.Op != token.NEQ) {
+					continue
+				}
+				var other ssa.Value
+				if cst, isC := bo.Y.(*ssa.Const); isC && cst.IsNil() {
+					other = bo.X
+				} else if cst, isC := bo.X.(*ssa.Const); isC && cst.IsNil() {
+					other = bo.Y
+				}
+				if other == nil {
+					continue
+				}
+				if col := k.of(other); col == cOld || col == cNew {
+					nilGuard[col] = cc.IPos(iff)
+				}
+			}
+			okSym := (nilGuard[cOld] == "") == (nilGuard[cNew] == "")
+			side, at := "OLD", nilGuard[cOld]
+			if nilGuard[cOld] == "" {
+				side, at = "NEW", nilGuard[cNew]
+			}
+			ctx.Check(okSym, "C18.R1", QName(f)+sprintf(" › paired check #%d (%s) is not guarded by the absence of one side only", nc, c.ShortName()), cc.IPos(in), "no one-sided nil guard",
+				"the comparison is skipped when the "+side+" value is nil ("+at+") whatever the other side is: a change from/to an absent value (e.g. a void method gaining a return type) is never reported")
+		}
+	}
+
 	// ---- R2 ----------------------------------------------------------------------------------
 	isLogErr := func(in ssa.Instruction) bool {
 		c, ok := ssax.AsCall(in)
